@@ -128,6 +128,8 @@ class _AsyncNodeWrapper:
                 f = self._executor.submit(fn, *args, **kwargs)
                 self._q_task.append((f, fn, args, kwargs))
                 f.add_done_callback(self._done_callback)
+                if _verif.ENABLED:
+                    _verif.gate("submitted", owner=self, fn=fn.__name__)
             else:
                 self.log("SKIPPED", fn.__name__, log_level=LogLevel.DEBUG)
                 if _verif.ENABLED:
@@ -880,6 +882,8 @@ class _AsyncConnectionWrapper:
                 f = self._executor.submit(fn, *args, **kwargs)
                 self._q_task.append((f, fn, args, kwargs))
                 f.add_done_callback(self._done_callback)
+                if _verif.ENABLED:
+                    _verif.gate("submitted", owner=self, fn=fn.__name__)
             else:
                 self.log("SKIPPED", fn.__name__, log_level=LogLevel.DEBUG)
                 if _verif.ENABLED:
